@@ -493,4 +493,112 @@ theorem sub_eq (m : Memory) (wp xp xsize yp ysize : Nat) (hs : ysize ≤ xsize)
       simp only [hc, not_false_eq_true, if_true, hb]
       rw [subTestLoop_eq wp xp xsize hx (xsize - ysize) ysize _ (by omega), hrd, writeList_append, hlen]
 
+/-! ### whole-function forms and lengths of the list-level results (no `Limbs` hypothesis needed) -/
+
+theorem lshiftGo_length (cnt : Nat) : ∀ (u : List Nat) (lo : Nat), (lshiftGo cnt u lo).1.length = u.length
+  | [], _ => rfl
+  | x :: xs, lo => by simp [lshiftGo, lshiftGo_length cnt xs]
+
+theorem rshiftGo_length (cnt : Nat) : ∀ (u : List Nat), (rshiftGo cnt u).length = u.length
+  | [] => rfl
+  | [_] => rfl
+  | x :: y :: ys => by simp [rshiftGo, rshiftGo_length cnt (y :: ys)]
+
+theorem mul1C_length (vl : Nat) : ∀ (u : List Nat) (cl : Nat), (mul1C u vl cl).1.length = u.length
+  | [], _ => rfl
+  | x :: xs, cl => by simp [mul1C, mul1C_length vl xs]
+
+theorem addmul1C_length (vl : Nat) : ∀ (r u : List Nat) (cl : Nat), r.length = u.length →
+    (addmul1C r u vl cl).1.length = u.length
+  | [], [], _, _ => rfl
+  | [], _ :: _, _, h => by simp at h
+  | _ :: _, [], _, h => by simp at h
+  | r :: rs, u :: us, cl, h => by
+      simp only [addmul1C, List.length_cons]
+      rw [addmul1C_length vl rs us _ (by simpa using h)]
+
+theorem submul1C_length (vl : Nat) : ∀ (r u : List Nat) (cl : Nat), r.length = u.length →
+    (submul1C r u vl cl).1.length = u.length
+  | [], [], _, _ => rfl
+  | [], _ :: _, _, h => by simp at h
+  | _ :: _, [], _, h => by simp at h
+  | r :: rs, u :: us, cl, h => by
+      simp only [submul1C, List.length_cons]
+      rw [submul1C_length vl rs us _ (by simpa using h)]
+
+theorem negNC_length : ∀ (u : List Nat) (c : Nat), (negNC u c).1.length = u.length
+  | [], _ => rfl
+  | x :: xs, c => by
+      simp only [negNC]
+      split
+      · split <;> simp [negNC_length xs]
+      · simp [negNC_length xs]
+
+theorem incr_length : ∀ (u : List Nat), (incr u).1.length = u.length
+  | [] => rfl
+  | x :: xs => by
+      simp only [incr]; split <;> simp [incr_length xs]
+
+theorem decr_length : ∀ (u : List Nat), (decr u).1.length = u.length
+  | [] => rfl
+  | x :: xs => by
+      simp only [decr]; split <;> simp [decr_length xs]
+
+theorem add_1_length (u : List Nat) (v : Nat) : (Mpir.add_1 u v).1.length = u.length := by
+  cases u with
+  | nil => rfl
+  | cons x xs => simp only [Mpir.add_1]; split <;> simp [incr_length]
+
+theorem sub_1_length (u : List Nat) (v : Nat) : (Mpir.sub_1 u v).1.length = u.length := by
+  cases u with
+  | nil => rfl
+  | cons x xs => simp only [Mpir.sub_1]; split <;> simp [decr_length]
+
+theorem add_length (x y : List Nat) (h : y.length ≤ x.length) : (Mpir.add x y).1.length = x.length := by
+  unfold Mpir.add Mpir.add_n
+  simp only
+  split <;> simp [addNC_length, incr_length, h]
+
+theorem sub_length (x y : List Nat) (h : y.length ≤ x.length) : (Mpir.sub x y).1.length = x.length := by
+  unfold Mpir.sub Mpir.sub_n
+  simp only
+  split <;> simp [subNC_length, decr_length, h]
+
+/-- what a caller can observe of "the call stored the list `l` at `[rp, rp+n)` and returned `r`" -/
+theorem mem_spec {m : Memory} {rp n r : Nat} {l : List Nat} {res : Memory × Nat}
+    (h : res = (writeList m rp l, r)) (hl : l.length = n) :
+    read res.1 rp n = l ∧ res.2 = r ∧ ∀ a, a < rp ∨ rp + n ≤ a → res.1 a = m a := by
+  subst h; subst hl
+  exact ⟨read_writeList l m rp, rfl, fun a h => writeList_outside l m rp a h⟩
+
+theorem lshift_eq (m : Memory) (rp up n cnt : Nat) (hn : 1 ≤ n) (h : up ≤ rp ∨ rp + n ≤ up) :
+    lshift m rp up n cnt =
+      (writeList m rp (Mpir.lshift (read m up n) cnt).1, (Mpir.lshift (read m up n) cnt).2) := by
+  obtain ⟨k, rfl⟩ : ∃ k, n = k + 1 := ⟨n - 1, by omega⟩
+  simp only [lshift, Mpir.lshift, Nat.add_sub_cancel, read_snoc, lshiftGo_snoc]
+  rw [lshiftLoop_eq cnt rp up k m _ (by omega)]
+
+theorem rshift_eq (m : Memory) (rp up n cnt : Nat) (hn : 1 ≤ n) (h : rp ≤ up ∨ up + n ≤ rp) :
+    rshift m rp up n cnt =
+      (writeList m rp (Mpir.rshift (read m up n) cnt).1, (Mpir.rshift (read m up n) cnt).2) := by
+  obtain ⟨k, rfl⟩ : ∃ k, n = k + 1 := ⟨n - 1, by omega⟩
+  simp only [rshift, Mpir.rshift, Nat.add_sub_cancel, read_succ, rshiftGo_cons]
+  rw [rshiftLoop_eq cnt k m rp (up + 1) _ (by omega)]
+
+theorem copyi_eq (m : Memory) (rp up n : Nat) (h : rp ≤ up ∨ up + n ≤ rp) :
+    copyi m rp up n = writeList m rp (read m up n) := by
+  cases n with
+  | zero => rfl
+  | succ k =>
+    simp only [copyi, ne_eq, Nat.add_one_ne_zero, not_false_eq_true, if_true, Nat.add_sub_cancel, read_succ]
+    rw [copyiLoop_eq k m rp (up + 1) _ (by omega)]
+
+theorem copyd_eq (m : Memory) (rp up n : Nat) (h : up ≤ rp ∨ rp + n ≤ up) :
+    copyd m rp up n = writeList m rp (read m up n) := by
+  cases n with
+  | zero => rfl
+  | succ k =>
+    simp only [copyd, ne_eq, Nat.add_one_ne_zero, not_false_eq_true, if_true, Nat.add_sub_cancel, read_snoc]
+    rw [copydLoop_eq rp up k m _ (by omega)]
+
 end Mpir.Mem
